@@ -264,7 +264,7 @@ func (Engine) Run(t *tape.Tape, o eng.Opts) *eng.Result {
 
 	var sr *sched.Result
 	if withObserver {
-		cfg := sched.Config{Sched: t.Stream("sched"), Time: t.Stream("time"), MaxSteps: 4000, KeepLog: o.Trace}
+		cfg := sched.Config{Sched: t.Stream("sched"), Time: t.Stream("time"), MaxSteps: world.StepCap(4000), KeepLog: o.Trace}
 		switch sw.Weighted(1, 4, 3) {
 		case 0:
 			cfg.Policy = sched.PolRunToCompletion
@@ -284,7 +284,7 @@ func (Engine) Run(t *tape.Tape, o eng.Opts) *eng.Result {
 		res.Probes["observer_runs"]++
 	} else {
 		q.Local.Init(-1, nil)
-		q.Local.SoloCap = 4000
+		q.Local.SoloCap = world.StepCap(4000)
 		sched.SetSolo(&q.Local)
 		func() {
 			defer func() { recover() }()
